@@ -106,8 +106,22 @@ def is_delta(b):
     return is_tens(b) and b.args[0] == "delta"
 
 
+def poly(*addends):
+    """A sum kept as ONE factor of a product, (a + b + ...): what the library wraps in a Polynom object."""
+    return T("poly", t_add(*addends))
+
+
+def is_poly(b):
+    return isinstance(b, T) and b.op == "poly"
+
+
 def keys_of(b):
-    return b.args[1] if is_tens(b) else ()
+    """Indices of a factor, one entry per position; for a sum factor the indices of all its addends (with multiplicity)."""
+    if is_tens(b):
+        return b.args[1]
+    if is_poly(b):
+        return tuple(sorted(k for c, d in monomials(b.args[0]) for x, e in d.items() for k in keys_of(x) for _ in range(abs(e))))
+    return ()
 
 
 def split_pow(f):
@@ -125,11 +139,17 @@ def monomials(v):
             b, e = split_pow(f)
             d[b] = d.get(b, 0) + e
         d = {b: (1 if is_delta(b) and e >= 1 else e) for b, e in d.items() if e != 0}
-        k = mono_key(1, d)
-        if k in acc:
-            acc[k] = (acc[k][0] + Fraction(c), d)
+        if len(d) == 1 and all(is_poly(b) and e == 1 for b, e in d.items()):
+            # number * (a + b) is no product: the number is distributed and the sum is a sum of terms (as sympy does)
+            parts = [(Fraction(c) * c2, d2) for b in d for c2, d2 in monomials(b.args[0])]
         else:
-            acc[k] = (Fraction(c), d)
+            parts = [(Fraction(c), d)]
+        for c2, d2 in parts:
+            k = mono_key(1, d2)
+            if k in acc:
+                acc[k] = (acc[k][0] + c2, d2)
+            else:
+                acc[k] = (c2, d2)
     return [(c, d) for c, d in acc.values() if c != 0]
 
 
@@ -148,7 +168,7 @@ def show_monos(monos):
     for c, d in monos:
         fs = [str(c)] if c != 1 or not d else []
         for b, e in sorted(d.items(), key=lambda x: repr(x[0])):
-            s = f"{b.args[0]}_{''.join(b.args[1])}" if is_tens(b) else show(b)
+            s = f"{b.args[0]}_{''.join(b.args[1])}" if is_tens(b) else f"({show_monos(monomials(b.args[0]))})" if is_poly(b) else show(b)
             fs.append(s if e == 1 else f"{s}^{e}")
         out.append(" ".join(fs))
     return " + ".join(out)
@@ -209,6 +229,8 @@ class World:
             name = None if is_delta(base) else base.args[0]
             idx = tuple(self.ix(k) for k in base.args[1])
             val = t_pow(base, exp)
+        elif is_poly(base):
+            name, idx, val = None, tuple(self.ix(k) for k in keys_of(base)), t_pow(base, exp)
         else:  # a number
             name, idx, val, exp = None, (), base, 1
         r.__dict__["name"] = f"<{show(val)}>"
@@ -281,6 +303,8 @@ def einstein_per_object(d):
 def substitute(d, old, new):
     out = {}
     for b, e in d.items():
+        if is_poly(b) and old in keys_of(b):
+            b = poly(*[from_monos([(c2, substitute(d2, old, new))]) for c2, d2 in monomials(b.args[0])])
         if is_tens(b) and old in b.args[1]:
             ks = [new if k == old else k for k in b.args[1]]
             b = delta(*ks) if b.args[0] == "delta" else tens(b.args[0], ks)
@@ -360,7 +384,7 @@ class Run:
                         isinstance_hook=self.isinst, hooks={
             "Mul": self.h_mul, "Add": self.h_add, "Mul.make_args": self.h_make_args("mul"), "Add.make_args": self.h_make_args("add"), "atoms": self.h_atoms, "has": self.h_has, "subs": self.h_subs, "func": self.h_func,
             "Expr": self.h_expr, "KroneckerDelta": self.h_delta, "Pow": self.h_pow, "evaluate_deltas": self.h_evd,
-            "sort_idx_canonical": self.h_sortkey, "get_symbols": self.h_get_symbols})
+            "sort_idx_canonical": self.h_sortkey, "get_symbols": self.h_get_symbols, "len": self.h_len})
         self.sx.strict_names = True   # an undefined name is a NameError of the library, not an external value
         self.sx.on_start = self._reset
 
@@ -475,6 +499,19 @@ class Run:
             return t_pow(b, n)
         return T("pow", b, n)
 
+    def h_len(self, sx, args, kw):
+        """len() of an Expr container: the number of its terms (0 has length 1); of a Term: the number of its objects."""
+        if len(args) == 1 and not kw:
+            x = args[0]
+            if isinstance(x, T) and has_cont(x):
+                v, _ = self.w.unwrap(x)
+                return max(1, len(monomials(v)))
+            if isinstance(x, Rec) and x.__dict__.get("cls") == EXPR:
+                return max(1, len(x.attrs["terms"]))
+            if isinstance(x, Rec) and x.__dict__.get("cls") == TERM:
+                return len(x.attrs["objects"])
+        return NotImplemented
+
     def h_sortkey(self, sx, args, kw):
         o = args[0]
         if isinstance(o, Obj) and "name" in o.attrs:
@@ -562,6 +599,8 @@ def _is_value(x):
         return False
     if x.op == "tens":
         return True
+    if x.op == "poly":
+        return _is_value(x.args[0])
     if x.op in ("mul", "add"):
         return all(_is_value(y) for y in x.args)
     if x.op == "pow":
@@ -588,6 +627,12 @@ def parse_term(s, spin="", spins=None):
     for tok in s.split():
         if ":" not in tok:
             coeff *= Fraction(tok)
+            continue
+        if tok.startswith("("):
+            # '(X:i+2*Y:i)^2': a sum kept as one factor
+            inner, _, ex = tok[1:].partition(")")
+            adds = [parse_term(a.replace("*", " "), spin, spins) for a in inner.split("+")]
+            facs.append((poly(*[t_mul(_num(c), *[t_pow(b, e) for b, e in fs]) for c, fs in adds]), int(ex[1:]) if ex else 1))
             continue
         name, rest = tok.split(":")
         idx, _, ex = rest.partition("^")
@@ -728,7 +773,7 @@ def value(monos, targets, uname):
         for c, d in monos:
             free = sorted({k for b in d for k in keys_of(b)} - set(tg))
             for b in d:
-                if not is_tens(b):
+                if not (is_tens(b) or is_poly(b)):
                     raise _Unknown(show(b))
             s = Fraction(0)
             for fa in itertools.product(range(DIM), repeat=len(free)):
@@ -736,11 +781,26 @@ def value(monos, targets, uname):
                 env.update(zip(free, fa))
                 p = Fraction(1)
                 for b, e in d.items():
-                    p *= tvalue(b.args[0], [env[k] for k in b.args[1]], uname) ** e
+                    p *= factor_value(b, env, uname) ** e
                 s += p
             tot += c * s
         out[asg] = tot
     return out
+
+
+def factor_value(b, env, uname):
+    """Value of one factor for an assignment of ALL its indices (a sum factor: the sum of the values of its addends)."""
+    if is_tens(b):
+        return tvalue(b.args[0], [env[k] for k in b.args[1]], uname)
+    tot = Fraction(0)
+    for c, d in monomials(b.args[0]):
+        p = Fraction(c)
+        for x, e in d.items():
+            if not (is_tens(x) or is_poly(x)):
+                raise _Unknown(show(x))
+            p *= factor_value(x, env, uname) ** e
+        tot += p
+    return tot
 
 
 class _Unknown(Exception):
